@@ -55,39 +55,66 @@ def _has_quantifier(fs):
     return False
 
 
+def _subst_many(fs, pairs):
+    """z3.substitute(f, *pairs) for every f, with the (from, to) arrays built once (the Python wrapper re-checks the
+    sorts of all pairs on every call, which dominates for ~300 pairs x ~200 formulas)."""
+    if not pairs or not fs:
+        return list(fs)
+    n = len(pairs)
+    ctx = fs[0].ctx
+    _from = (z3.Ast * n)()
+    _to = (z3.Ast * n)()
+    for i, (a, b) in enumerate(pairs):
+        _from[i] = a.as_ast()
+        _to[i] = b.as_ast()
+    return [z3.z3._to_expr_ref(z3.Z3_substitute(ctx.ref(), f.as_ast(), n, _from, _to), ctx) for f in fs]
+
+
 def purify(fs):
-    """Replace applications of uninterpreted functions (arity > 0) by fresh constants. Returns (formulas, names) where
-    names maps the fresh constant's name to the application it stands for (a z3 term)."""
-    table, names, seen = {}, {}, set()
-    pairs = []
-    stack = list(fs)
+    """Replace applications of uninterpreted functions (arity > 0) by fresh constants (innermost first, so nested
+    applications such as cos(atan2(y, x)) are handled). Returns (formulas, names) where names maps the fresh constant's
+    name to the application it stands for (a z3 term)."""
+    table, names, has_uf = {}, {}, {}
+    order = []  # uninterpreted applications in post-order (inner before outer)
+    stack = [(f, False) for f in fs]
     while stack:
-        e = stack.pop()
+        e, done = stack.pop()
         k = e.get_id()
-        if k in seen:
+        if done:
+            uf = z3.is_app(e) and e.decl().kind() == z3.Z3_OP_UNINTERPRETED and e.num_args() > 0
+            inner = any(has_uf.get(c.get_id(), False) for c in e.children())
+            has_uf[k] = uf or inner
+            if uf:
+                order.append((e, inner))
             continue
-        seen.add(k)
-        if not z3.is_app(e):
-            if z3.is_quantifier(e):
-                stack.append(e.body())
+        if k in has_uf:
             continue
-        n = e.num_args()
-        if n == 0:
+        has_uf[k] = False
+        if z3.is_quantifier(e):
+            stack.append((e.body(), False))
             continue
-        ch = e.children()
-        d = e.decl()
-        if d.kind() == z3.Z3_OP_UNINTERPRETED:
-            key = (d.name(), tuple(z3.simplify(c).get_id() for c in ch))
-            c = table.get(key)
-            if c is None:
-                c = z3.Const(f"uf!{len(table)}!{d.name()}", e.sort())
-                table[key] = c
-                names[str(c)] = e
-            pairs.append((e, c))
-        stack.extend(ch)
-    if not pairs:
+        if not z3.is_app(e) or e.num_args() == 0:
+            continue
+        stack.append((e, True))
+        for c in e.children():
+            if c.get_id() not in has_uf:
+                stack.append((c, False))
+    if not order:
         return list(fs), names
-    return [z3.substitute(f, *pairs) for f in fs], names
+    pairs = []
+    for e, inner in order:
+        e2 = _subst_many([e], pairs)[0] if (inner and pairs) else e  # arguments with the inner applications replaced
+        d = e2.decl()
+        key = (d.name(), tuple(z3.simplify(c).get_id() for c in e2.children()))
+        c = table.get(key)
+        if c is None:
+            c = z3.Const(f"uf!{len(table)}!{d.name()}", e.sort())
+            table[key] = c
+            names[str(c)] = e
+        pairs.append((e2, c))
+        if e2.get_id() != e.get_id():
+            pairs.append((e, c))
+    return _subst_many(list(fs), pairs), names
 
 
 def discharge_purified(ob, timeout_s=10):
